@@ -80,6 +80,10 @@ def run(chk):
             add_signed(tr, st[:c], cut(st[:c], [], rnd.random() < 0.5), "truncated", None)
             if c and rnd.random() < 0.3:
                 add_signed(tr, st[:c], cut(st[:c], [rnd.randrange(0, c)], False), "truncated+cut", None)
+            if c > 1:
+                # the source hands over the last bytes together with EOF (as net/http bodies do), after an earlier fragment
+                add_signed(tr, st[:c], cut(st[:c], [rnd.randrange(1, c)], True), "truncated+cut-eof-with-data", None)
+                add_signed(tr, st[:c], cut(st[:c], [c - 1], True), "truncated+cut-eof-with-data", None)
         for c in range(0, len(st), 2 if quick else 1):
             m = bytearray(st); m[c] ^= rnd.choice([1, 0x20, 0x80, 0x0f])
             m = bytes(m)
